@@ -29,6 +29,8 @@ type caseResult struct {
 	compared   int
 	key        string
 	nontrivial bool
+	logLen     int
+	wall       time.Duration
 }
 
 // ids maps block hashes to the small numbers the Lean driver uses (0 = felt.Zero).
@@ -535,7 +537,9 @@ func staticScenarios(seed uint64, dst []bool, maxLocal, maxNew int) []Scenario {
 // raceScenario: a reorg lands while an answer of the old chain is in flight. The node holds
 // A0..A2 and syncs A3 (switching to parallel fetchers); block 4 cannot be fetched while the source is
 // on chain A, block A5 is fetched but held back; the source then replaces A4.. by B4..; the node
-// stores B4 (it extends A3); then A5 arrives.
+// stores B4 (it extends A3); then A5 arrives. (If the synchroniser has not switched to parallel
+// fetchers the held block is never asked for: the "fail" rule gives up after 400 attempts and the
+// case degenerates to a plain sync.)
 func raceScenario(seed uint64, dstNew bool) Scenario {
 	r := lib.NewRNG(seed)
 	pre := r.Range(1, 5) // the node holds A0..A(pre-1) and syncs A(pre) first
@@ -645,7 +649,7 @@ func main() {
 	} else {
 		r := lib.NewRNG(f.Seed)
 		scs = append(scs, staticScenarios(f.Seed, []bool{false, true}, f.Scale(4, 6), f.Scale(3, 4))...)
-		nd := f.Scale(120, 3000)
+		nd := f.Scale(120, 2000)
 		for i := 0; i < nd; i++ {
 			scs = append(scs, dynamicScenario(r.Fork(uint64(i)), i))
 		}
@@ -701,7 +705,11 @@ func main() {
 				}
 				for i := range work {
 					out := runScenario(scs[i])
-					results[i] = analyse(scs[i], out, drv)
+					cr := analyse(scs[i], out, drv)
+					// keep only what the summary needs: thousands of blockchains and traces do not fit in memory
+					cr.logLen, cr.wall = len(out.log), out.wall
+					cr.out, cr.lines, cr.answers = nil, nil, nil
+					results[i] = cr
 				}
 			}()
 		}
@@ -717,7 +725,7 @@ func main() {
 	for i := range order {
 		order[i] = i
 	}
-	sort.SliceStable(order, func(a, b int) bool { return len(results[order[a]].out.log) < len(results[order[b]].out.log) })
+	sort.SliceStable(order, func(a, b int) bool { return results[order[a]].logLen < results[order[b]].logLen })
 	for _, i := range order {
 		cr := results[i]
 		for _, v := range cr.violations {
@@ -727,8 +735,8 @@ func main() {
 	var slowest time.Duration
 	var slowSc Scenario
 	for _, cr := range results {
-		if cr.out.wall > slowest {
-			slowest, slowSc = cr.out.wall, cr.sc
+		if cr.wall > slowest {
+			slowest, slowSc = cr.wall, cr.sc
 		}
 	}
 	js, _ := json.Marshal(slowSc)
